@@ -48,11 +48,12 @@ EXPECTED_PROBES = ["op_set_geometry", "op_concat", "op_pickle", "op_cx", "op_col
                    "dask_parquet_geometry_kw", "dask_persist", "per_partition_active_checked",
                    "use_sjoin", "use_hilbert", "earlier_frame_rechecked",
                    "earlier_dask_frame_rechecked", "dask_parquet_geometry_and_bounds_kw",
-                   "inactive_column_named_geometry", "dask_concat", "dask_repartition", "dask_filter"]
+                   "inactive_column_named_geometry", "dask_concat", "dask_repartition", "dask_filter",
+                   "op_set_geometry_inplace", "op_concat_of_empty_frames"]
 
-PANDAS_OPS = ("set_geometry", "iloc", "mask", "query", "head", "take", "sample", "sort_values",
-              "copy", "colsubset", "colsubset_other", "colsubset_nogeo", "cx", "pickle", "concat",
-              "assign", "rename")
+PANDAS_OPS = ("set_geometry", "set_geometry_same_then_inplace", "iloc", "mask", "query", "head",
+              "take", "sample", "sort_values", "copy", "colsubset", "colsubset_other",
+              "colsubset_nogeo", "cx", "pickle", "concat", "concat_empty", "assign", "rename")
 DASK_OPS = ("d_from_pandas", "d_set_geometry", "d_persist", "d_compute", "d_parquet", "d_concat",
             "d_repartition", "d_filter")
 
@@ -132,7 +133,7 @@ def _guard(what, fn, sig):
         import traceback
         tb = traceback.extract_tb(e.__traceback__)
         where = next((f"{os.path.basename(f.filename)}:{f.name}" for f in reversed(tb)
-                      if "/repo/spatialpandas/" in f.filename), "?")
+                      if seams.SP_DIR in f.filename), "?")
         sig["where"] = where
         raise Bad(f"exception@{what}", f"{what} raised {type(e).__name__}: {str(e)[:200]} "
                   f"(in {where})") from None
@@ -310,6 +311,24 @@ def _drive(case, root, fs, probes, sig, done):
             df = _guard("set_geometry", lambda: df.set_geometry(col), sig)
             active = col
             probes["op_set_geometry"] = 1
+        elif op == "set_geometry_same_then_inplace":
+            # selecting the column that is already active must still give an independent
+            # frame: changing that frame in place afterwards must not touch the source
+            others = [c for c in geos if c != active]
+            if active not in geos or not others:
+                continue
+            same = _guard("set_geometry(already active)", lambda: df.set_geometry(active), sig)
+            _guard("set_geometry(inplace=True)",
+                   lambda: same.set_geometry(others[st["bits"] % len(others)], inplace=True), sig)
+            df = same
+            active = others[st["bits"] % len(others)]
+            probes["op_set_geometry_inplace"] = 1
+        elif op == "concat_empty":
+            if active not in geos:
+                continue
+            e = df.iloc[:0]
+            df = _guard("pd.concat of empty frames", lambda: pd.concat([e, e.copy()]), sig)
+            probes["op_concat_of_empty_frames"] = 1
         elif op == "iloc":
             pos = [j % n for j in st["idx"]] if n else []
             df = _guard("iloc", lambda: df.iloc[pos], sig)
